@@ -78,7 +78,8 @@ class Acc:
             if self.prop in f['prop']:
                 if len(self.findings) < 60:
                     self.findings.append({'kind': f['kind'], 'detail': f['detail'], 'prop': f['prop'],
-                                          'tags': case['prog'].get('tags', []), 'case': case})
+                                          'tags': sorted(set(case['prog'].get('tags', [])) | set(res.get('dyn_tags', []))),
+                                          'case': case})
                 else:
                     self.counters['findings_dropped'] = self.counters.get('findings_dropped', 0) + 1
         if len(self.samples) < 2 and st.get('choice_points', 0) >= 2:
@@ -124,6 +125,7 @@ def work_generic(prop, tier, seed, widx, nworkers):
         built = harness.Built(prog, events=True, store=(prop == 'C19'))
         vals = rng.sample([0, 1, 2, 3], 2)
         outcomes = {}
+        dyn_by_val = {}
         for val in vals:
             for s in range(nsched):
                 case = base_case(prog, [['r0', val]], rng)
@@ -137,6 +139,7 @@ def work_generic(prop, tier, seed, widx, nworkers):
                 if prop == 'C01':
                     obs_out = _outcome_class(res)
                     outcomes.setdefault(val, set()).add(obs_out)
+                    dyn_by_val.setdefault(val, set()).update(res.get('dyn_tags', []))
                 if built.build_error is not None:
                     break
             if built.build_error is not None:
@@ -148,7 +151,7 @@ def work_generic(prop, tier, seed, widx, nworkers):
                 if len(vals_seen) > 1 or ('value' in kinds and 'error' in kinds):
                     acc.findings.append({'kind': 'schedule_dependent_outcome', 'prop': ['C01'],
                                          'detail': {'outcomes': sorted(map(str, oc))[:4]},
-                                         'tags': prog.get('tags', []),
+                                         'tags': sorted(set(prog.get('tags', [])) | dyn_by_val.get(val, set())),
                                          'case': base_case(prog, [['r0', val]], rng)})
         built.close()
     return acc.result()
